@@ -564,7 +564,7 @@ func reg(p *propDef) { props[p.id] = p }
 
 func init() {
 	reg(&propDef{id: "C01", level: "exploration", crashIsViol: true,
-		batches: []batch{{name: "faultfree", params: map[string]string{"full": "1"}, quick: 1600, thorough: 60000},
+		batches: []batch{{name: "faultfree", params: map[string]string{"full": "1"}, quick: 2400, thorough: 60000},
 			{name: "manyfiles", params: map[string]string{"many": "1"}, quick: 16, thorough: 300, chunk: 1}},
 		rule:    "each evaluation is one simulated end-to-end transfer (generated source tree x configuration vector x transport profile x schedule) on a fault-free link; non-trivial = both sides reported success and the file-system oracle compared every transferred entry; distinct = distinct (configuration class, schedule-trace hash) pairs"})
 	reg(&propDef{id: "C02", level: "exploration", crashIsViol: false,
@@ -1403,8 +1403,9 @@ func selftestDeterminism(pl *pool, seed int64, runs int) {
 	}
 	sort.Strings(ids)
 	type key struct {
-		prop string
-		idx  int
+		prop  string
+		batch string
+		idx   int
 	}
 	sigs := map[key]map[string]int{}
 	traces := map[key]map[string][]string{}
@@ -1412,9 +1413,13 @@ func selftestDeterminism(pl *pool, seed int64, runs int) {
 	for round, workers := range []int{16, 4, 1, 16} {
 		var jobs []*Job
 		id := 0
+		idBatch := map[int]string{}
 		for _, p := range ids {
-			for _, b := range props[p].batches[:1] {
+			for bi, b := range props[p].batches {
 				n := runs / len(ids)
+				if bi > 0 {
+					n /= 3 // every batch takes part (enumerated ones with their counting run), the first one most
+				}
 				if n < 4 {
 					n = 4
 				}
@@ -1423,7 +1428,11 @@ func selftestDeterminism(pl *pool, seed int64, runs int) {
 					for k, v := range b.params {
 						params[k] = v
 					}
+					if b.enumKinds > 0 {
+						params["enum_k"] = "-1"
+					}
 					jobs = append(jobs, &Job{ID: id, Prop: p, Seed: uint64(seed), Idx: i, Params: params, Trace: true})
+					idBatch[id] = b.name
 					id++
 				}
 			}
@@ -1431,7 +1440,7 @@ func selftestDeterminism(pl *pool, seed int64, runs int) {
 		pl.workers = workers
 		pl.chunk = 7 + round*5
 		for _, r := range pl.runAll(jobs) {
-			k := key{r.Prop, r.Idx}
+			k := key{r.Prop, idBatch[r.ID], r.Idx}
 			if sigs[k] == nil {
 				sigs[k] = map[string]int{}
 			}
@@ -1450,7 +1459,7 @@ func selftestDeterminism(pl *pool, seed int64, runs int) {
 	for k, m := range sigs {
 		if len(m) > 1 {
 			bad++
-			fmt.Printf("DIVERGENCE %s idx=%d: %v\n", k.prop, k.idx, m)
+			fmt.Printf("DIVERGENCE %s batch=%s idx=%d: %v\n", k.prop, k.batch, k.idx, m)
 			var trs [][]string
 			for _, t := range traces[k] {
 				trs = append(trs, t)
